@@ -6,6 +6,9 @@ Everything is module level because the HTTP app resolves the type hints of the s
   ex(a, label)  cursor ExState, call state ExCall(label)         (declares call-state type ExCall)
   ey(a, label)  cursor EyState, no call state                    (declares none)
   ez(a, label)  cursor EzState, call state ExCall(label)         (declares ExCall too)
+  ew(a, label)  cursor EwState, call state WCall(label)          (declares WCall; a WCall is FALSY but not None:
+                                                                  it defines __len__ == 0, like a projection wrapper
+                                                                  with an empty column list)
 The three cursor classes have the same fields, so a cursor of one deserializes at the endpoint of another: what
 differs between the endpoints is only what the cache-miss path checks (the declared call-state type).
 """
@@ -23,7 +26,8 @@ from vgi_rpc.utils import ArrowSerializableDataclass
 ARROW_CT = "application/vnd.apache.arrow.stream"
 OUT_SCHEMA = pa.schema([("y", pa.int64()), ("x", pa.int64()), ("lab", pa.int64())])
 IN_SCHEMA = pa.schema([("x", pa.int64())])
-METHODS = ["ex", "ey", "ez"]
+METHODS = ["ex", "ey", "ez", "ew"]
+CALL_TYPES = {"ExCall": 1, "WCall": 2}
 
 
 @dataclass(frozen=True)
@@ -31,6 +35,16 @@ class ExCall(ArrowSerializableDataclass):
     """Immutable per-stream call state (travels in the call token, or sits in the cache)."""
 
     label: int = 0
+
+
+@dataclass(frozen=True)
+class WCall(ArrowSerializableDataclass):
+    """A call state whose truth value is False although it is not None."""
+
+    label: int = 0
+
+    def __len__(self) -> int:
+        return 0
 
 
 class _Base(StreamState):
@@ -63,10 +77,17 @@ class EzState(_Base):
     n: int = 0
 
 
+@dataclass
+class EwState(_Base):
+    CALL_STATE_TYPE: ClassVar[type[ArrowSerializableDataclass] | None] = WCall
+    n: int = 0
+
+
 class C14Protocol(Protocol):
     def ex(self, a: int, label: int) -> Stream[ExState]: ...
     def ey(self, a: int, label: int) -> Stream[EyState]: ...
     def ez(self, a: int, label: int) -> Stream[EzState]: ...
+    def ew(self, a: int, label: int) -> Stream[EwState]: ...
 
 
 class C14Impl:
@@ -84,6 +105,12 @@ class C14Impl:
         if a == 999:
             raise ValueError("init refused")
         return Stream(output_schema=OUT_SCHEMA, state=EzState(n=a), input_schema=IN_SCHEMA, call_state=ExCall(label=label))
+
+
+    def ew(self, a: int, label: int) -> Stream[EwState]:
+        if a == 999:
+            raise ValueError("init refused")
+        return Stream(output_schema=OUT_SCHEMA, state=EwState(n=a), input_schema=IN_SCHEMA, call_state=WCall(label=label))
 
 
 # ---- identities -------------------------------------------------------------
